@@ -319,6 +319,10 @@ func (fv *FV) applyContract(st *State, fc *FuncContract, key string, names []str
 		fv.assumeWF(st, v)
 		rs = append(rs, v)
 		env.vars[rn[i]] = v
+		env.vars[fmt.Sprintf("res%d", i)] = v
+		if results.Len() == 1 {
+			env.vars["res"] = v
+		}
 		if isErrorType(t) && i == results.Len()-1 {
 			if _, taken := env.vars["err"]; !taken || rn[i] == "err" {
 				env.vars["err"] = v
